@@ -673,6 +673,37 @@ func runC09(p *core.Program, r *core.Report) {
 		}
 	}
 
+	// Put inserts on every path and stores the result; only put writes the links of the tree
+	{
+		isPut := func(in ssa.Instruction) bool {
+			call, ok := in.(ssa.CallInstruction)
+			return ok && path.StaticCallee(call) == nput
+		}
+		mn, mx := path.MinCount(fPut, isPut), path.MaxCount(fPut, isPut)
+		c.ob("PT1", p.FuncName(fPut), "inserts exactly once on every path", c.fpos(fPut), mn == 1 && mx == 1, fmt.Sprintf("Put calls put %d..%s times depending on the path: some keys are not stored", mn, countStr(mx)))
+		for _, f := range all {
+			for _, in := range path.Instrs(f) {
+				st, ok := in.(*ssa.Store)
+				if !ok {
+					continue
+				}
+				fa, ok := st.Addr.(*ssa.FieldAddr)
+				if !ok {
+					continue
+				}
+				if isFieldOf(fa, "node", "left") || isFieldOf(fa, "node", "mid") || isFieldOf(fa, "node", "right") || isFieldOf(fa, "node", "c") {
+					okW := f == nput
+					if !okW {
+						if al, isAl := fa.X.(*ssa.Alloc); isAl && al.Heap {
+							okW = true // initialisation of a fresh node
+						}
+					}
+					c.ob("AG1", p.FuncName(f), "writes the links/byte of a node", p.InstrPos(st), okW, "the trie's links or stored bytes are written outside put")
+				}
+			}
+		}
+	}
+
 	// ---------------- AG4: the key counter
 	{
 		sts := fieldStores(all, "Trie", "n")
